@@ -10,7 +10,7 @@ R_THOROUGH = ["cases.tl", "goldmaster.tl", "goldmaster2.tl", "goldmaster3.tl", "
 
 def run_gen(prop, tier, regex, regex_q=None, props=None, optsets=("full",), params_q=None, params_t=None, level="model_checking", f_pattern="*",
             r_quick=(), r_thorough=(), wall_q="8s", wall_t="300s", bounds=None, outside=None, assumptions=(), only=None, max_models_q=6, max_models_t=30,
-            max_paths_q=1200, max_paths_t=60000, hgen_extra=(), ladder=None, prim=None, pkg_harness=None, extra_runs=(), finish=True):
+            max_paths_q=1200, max_paths_t=60000, hgen_extra=(), ladder=None, ladder_q=None, prim=None, pkg_harness=None, extra_runs=(), finish=True):
     c = GenCheck(prop, tier, level)
     if tier == "quick" and regex_q:
         regex = regex_q
@@ -22,7 +22,7 @@ def run_gen(prop, tier, regex, regex_q=None, props=None, optsets=("full",), para
             if schemas[0].endswith(".tl2") and on == "default":
                 continue
             skip = None if key == "f01" else PRELUDE
-            c.run_schema(key, schemas, on, props or [prop], regex, params=params, skip=skip, only=only, hgen_extra=hgen_extra, ladder=ladder or (),
+            c.run_schema(key, schemas, on, props or [prop], regex, params=params, skip=skip, only=only, hgen_extra=hgen_extra, ladder=(ladder_q if (tier == "quick" and ladder_q is not None) else ladder) or (),
                          wall=wall_q if tier == "quick" else wall_t,
                          # quick: passing-path models are replayed natively for a rotating third of the corpus (violations are always replayed)
                          max_models=(max_models_q if (idx + c.seed) % 3 == 0 else 0) if tier == "quick" else max_models_t,
@@ -89,7 +89,7 @@ JSON_STRINGS = dict(key="f01", schema="f01_scalars.tl", props=["C34"], regex="^V
 SPEC["C03"]["extra_runs"] = [dict(key="f07", schema="f07_dicts.tl", props=["C03"], regex="^VerifC03x_", params_q={}, params_t={}, libs=["zz_verif_c03_f07.go"], only=["F07VecDict"], wall_q="60s", wall_t="300s",
                                   text="typed case f07.vecDict: dictionaries whose values own memory (vectors, nested dictionaries) with two entries, symbolic keys and elements (entries must not alias after reading)")]
 SPEC["C10"]["extra_runs"] = [dict(JSON_STRINGS, regex="^VerifC34StringBytes$")]
-SPEC["C18"] = dict(params_q={"L": 2, "rlow": 99}, params_t={"L": 3, "rlow": 99}, ladder=[{"rlow": 1}, {"rlow": 0, "L": 1}],
+SPEC["C18"] = dict(params_q={"L": 2, "rlow": 1}, params_t={"L": 3, "rlow": 99}, ladder=[{"rlow": 1}, {"rlow": 0, "L": 1}], ladder_q=[{"rlow": 0, "L": 1}],
                    bounds={"rand": "ANY output sequence of the Rand source (every draw a fresh symbolic 64-bit value): strictly more than all seeds", "sizes": "SizeHandler = x mod (L+1)",
                            "rlow": "when < 32: every draw is assumed to be <= rlow modulo 32 (keeps RandomString short; its length is not under SizeHandler control)"},
                    outside=OUT_COMMON + ["JSON writer on random values (numbers symbolic)", "collection sizes above L"], r_thorough=R_QUICK,
